@@ -54,6 +54,11 @@ class QueryBase[T](ABC):
     def _common_conditions(self):
         """Add conditions common to all queries."""
 
+        # The SQL is rebuilt from scratch every time it is requested: a query
+        # object is a value and may be executed any number of times.
+        self._conditions = []
+        self._params = []
+
         if self.filter is not None:
             # Handle all filter conditions in one go here. The filter
             # conditions are on the flights table, which we alias as 'f' in the
